@@ -23,6 +23,9 @@ func main() {
 	if len(os.Args) > 1 && os.Args[1] == "manifest" {
 		os.Exit(manifestMain(os.Args[2:]))
 	}
+	if len(os.Args) > 1 && os.Args[1] == "seeded" {
+		os.Exit(seededMain(os.Args[2:]))
+	}
 	if len(os.Args) > 1 && os.Args[1] == "dump" {
 		os.Exit(dumpMain(os.Args[2:]))
 	}
